@@ -88,7 +88,7 @@ theorem stepFrame_weakH_script (ops : List Op) (self wc : Option Id) (top : Bool
   have hi := ha.inv
   have h0 := hi.pop hs rfl
   obtain ⟨hp, hids⟩ := hc.pop hs
-  have hp' : CountsH { w with stack := rest } [] := by cases self <;> exact hp
+  have hp' : CountsH false { w with stack := rest } [] := by cases self <;> exact hp
   have hself : ∀ s, self = some s → s < w.next := by
     intro s hs; subst hs; exact hids s (by simp [Frame.ids])
   have hw0 : WeakH { w with stack := rest } [] := (h.pop hs).1
@@ -97,7 +97,7 @@ theorem stepFrame_weakH_script (ops : List Op) (self wc : Option Id) (top : Bool
   | cons op ops =>
     simp only [stepFrame]
     have hc1 := (CountsH.pushFrame (E := []) (.script ops self wc top) (by cases self <;> simpa [Frame.holds] using hp')
-      (by cases self <;> simpa [Frame.ids] using hself)).toCounts
+      (by cases self <;> simpa [Frame.ids] using hself)).toCounts0
     have hi1 : Inv (({ w with stack := rest } : World).push (.script ops self wc top)) :=
       h0.step (WOI.same h0.oi rfl rfl) [.script ops self wc top] (by plain_tac) rfl
     have hw1 : WeakH (({ w with stack := rest } : World).push (.script ops self wc top)) [] :=
